@@ -222,9 +222,15 @@ def check(prog, rep):
         for o in sub.obs:
             rep.ob("R08.3", o.construct, o.ok, o.msg, loc=o.loc, detail=o.detail)
         # R08.4
-        reads = [n for n in walk_local(fi.node, include_self=False) if isinstance(n, ast.Attribute) and n.attr.startswith("_") and isinstance(n.value, ast.Name) and n.value.id == "problem"]
+        reads = [n for h in helper_closure(prog, fi, depth=2) if h.module is fi.module for n in walk_local(h.node, include_self=False)
+                 if isinstance(n, ast.Attribute) and n.attr.startswith("_") and isinstance(n.value, ast.Name) and n.value.id == "problem"]
         names = sorted({n.attr for n in reads})
-        rep.ob("R08.4", fi.name, names == ["_lp_cache"], f"the only per-problem state reused across solves is {names}" if names == ["_lp_cache"] else f"reads private problem state {names}", loc=fi.loc, detail="reused-state")
+        if names != ["_lp_cache"]:
+            # reading no cache, or one more private attribute, is a different design, not a wrong one: what the extra state
+            # is and who invalidates it is C13's question
+            rep.undecided(f"{fi.name}: the per-problem state read across solves is {names}, not just ['_lp_cache'] as on the confirmed baseline; whether the LP data handed to linprog is still that of the current model is not decided here")
+        else:
+            rep.ob("R08.4", fi.name, True, f"the only per-problem state reused across solves is {names}" if names == ["_lp_cache"] else f"reads private problem state {names}", loc=fi.loc, detail="reused-state")
     from .common import cache_inplace_mutations, problem_model
     muts = [m for m in cache_inplace_mutations(prog, problem_model(prog)) if "lp" in m[0].module.name]
     for f, n, what in muts:
